@@ -3,63 +3,9 @@
    (cpc_compressor::compress per flavor, cpc_compressor_impl.hpp lines 144-331) and the low-level codecs. No proofs. *)
 From Coq Require Import ZArith NArith List Bool.
 From DS.gen Require Import CpcTablesGen.
-From DS Require Import Word Murmur3 RunnerLib CpcDefs CpcCodecTables CpcCodecDefs.
+From DS Require Import Word Murmur3 RunnerLib CpcDefs CpcCodecTables CpcCodecDefs CpcFlavorDefs.
 Import ListNotations.
 Local Open Scope N_scope.
-
-(* tricky_get_pairs_from_window: the pairs of the window bits (HYBRID flavor, offset 0) *)
-Fixpoint window_pairs (win : list N) (row : N) : list N :=
-  match win with
-  | [] => []
-  | b :: r =>
-    map (fun c => N.lor (N.shiftl row 6) c) (filter (fun c => N.testbit b c) [0;1;2;3;4;5;6;7]) ++ window_pairs r (row + 1)
-  end.
-
-Record cstate := { c_num_entries : N; c_table : list N; c_window : list N }.
-
-Definition compress_sketch (s : sketch) : option cstate :=
-  let fl := determine_flavor (lgk s) (ncoup s) in
-  let items := t_items (table s) in
-  if fl =? FL_EMPTY then Some {| c_num_entries := 0; c_table := []; c_window := [] |}
-  else if fl =? FL_SPARSE then
-    match window s with _ :: _ => None | [] =>
-    let pairs := sortN items in
-    do w <- compress_surprising_values pairs (lgk s);
-    Some {| c_num_entries := N.of_nat (length pairs); c_table := w; c_window := [] |} end
-  else if fl =? FL_HYBRID then
-    match window s with [] => None | _ =>
-    if negb (woff s =? 0) then None else
-    let pairs := sortN (items ++ window_pairs (window s) 0) in
-    if negb (N.of_nat (length pairs) =? ncoup s) then None else
-    do w <- compress_surprising_values pairs (lgk s);
-    Some {| c_num_entries := N.of_nat (length pairs); c_table := w; c_window := [] |} end
-  else if fl =? FL_PINNED then
-    let ww := compress_sliding_window (window s) (lgk s) (ncoup s) in
-    match items with
-    | [] => Some {| c_num_entries := 0; c_table := []; c_window := ww |}
-    | _ =>
-      if existsb (fun p => N.land p 63 <? 8) items then None else
-      let pairs := sortN (map (fun p => p - 8) items) in
-      do w <- compress_surprising_values pairs (lgk s);
-      Some {| c_num_entries := N.of_nat (length pairs); c_table := w; c_window := ww |}
-    end
-  else
-    let ww := compress_sliding_window (window s) (lgk s) (ncoup s) in
-    match items with
-    | [] => Some {| c_num_entries := 0; c_table := []; c_window := ww |}
-    | _ =>
-      let phase := determine_pseudo_phase (lgk s) (ncoup s) in
-      if 16 <=? phase then None else
-      if 56 <? woff s then None else
-      let perm := nth (N.to_nat phase) column_permutations_for_encoding [] in
-      let tr := fun p => let row := N.shiftr p 6 in
-                         let col := N.land (N.land p 63 + 56 - woff s) 63 in
-                         N.lor (N.shiftl row 6) (nth (N.to_nat col) perm 0) in
-      if existsb (fun p => 56 <=? N.land (N.land p 63 + 56 - woff s) 63) items then None else
-      let pairs := sortN (map tr items) in
-      do w <- compress_surprising_values pairs (lgk s);
-      Some {| c_num_entries := N.of_nat (length pairs); c_table := w; c_window := ww |}
-    end.
 
 Local Open Scope Z_scope.
 
@@ -71,6 +17,15 @@ Definition step (st : list (Z * obj)) (o e : line) : list (Z * obj) * outline :=
           match compress_sketch s with
           | Some c => (st, ([Nz (c_num_entries c); nz (length (c_table c))] ++ NL (c_table c) ++
                             [nz (length (c_window c))] ++ NL (c_window c), []))
+          | None => (st, (refused, []))
+          end
+      | _ => (st, (refused, []))
+      end
+  | 6 :: r :: r2 :: _ =>                                   (* r2 := deserialize(serialize(r)) through the codec model *)
+      match reg_get st r with
+      | Some (OSk s log) =>
+          match codec_roundtrip s with
+          | Some s' => (reg_set st r2 (OSk s' log), (ok, []))
           | None => (st, (refused, []))
           end
       | _ => (st, (refused, []))
